@@ -34,9 +34,11 @@ def obligations(tier):
         shapes += [["CL", "CL", "CL"], ["TE", "CL", "CL"], ["CL", "TE", "TE"], ["XY", "CL", "TE"], ["TE", "XY", "TE"], ["CL", "XY", "CL"]]
     for sh in shapes:
         ks = [K[x] for x in sh] + [0, 0, 0]
+        ncl = sum(1 for x in sh if x in ("CL", "cl"))
+        v = (8 if ncl < 2 else 5) if tier == "quick" else (10 if ncl < 2 else 6)
         obs.append(dict(name="framing_" + ("_".join(sh) or "none"), harness="C23_framing.c", entry="harness_framing",
                     defines=["VP_V=%d" % v, "VP_K0=%d" % ks[0], "VP_K1=%d" % ks[1], "VP_K2=%d" % ks[2]] ,
-                    unwind=max(v + 3, 20), instrument=CUT_BODY, timeout=600, mem_gb=6, native=False,
+                    unwind=max(v + 3, 20), instrument=CUT_BODY, timeout=600 if tier == "quick" else 2400, mem_gb=6, native=False,
                     desc="framing decision for header fields [%s], values <=%d symbolic bytes, all methods" % (", ".join(sh), v)))
     L, N = (2, 8) if tier == "quick" else (2, 10)
     KF_HDR = ["WS_COLON", "OWS_HTAB", "VALUE_CTL"]
@@ -44,4 +46,8 @@ def obligations(tier):
                 defines=["VP_L=%d" % L, "VP_N=%d" % N],
                 unwind=L * (N + 1) + 3, timeout=800, mem_gb=8,
                 desc="header section: <=%d lines of <=%d symbolic bytes vs RFC 9112 5 reference" % (L, N)))
+    S = 12 if tier == "quick" else 14
+    obs.append(dict(name="chunked", harness="C23_chunked.c", entry="harness_chunked", defines=["VP_S=%d" % S],
+                unwind=S + 3, timeout=900, mem_gb=8,
+                desc="chunked body decoder on a symbolic stream of <=%d bytes vs RFC 9112 7.1 reference" % S))
     return obs
